@@ -137,6 +137,8 @@ def gen_cases(ctx):
             yield dict(part='seq', seq=list(seq), status='default', path='/api')
             if n == 2:
                 yield dict(part='seq', seq=list(seq), status='first-code-table', path='/rpc')
+            if n == 3 and all(SEQ_ALPHABET[i][0] and SEQ_ALPHABET[i][0].startswith('application/json') for i in seq):
+                yield dict(part='seq', seq=list(seq), status='changing', path='/api')
     # the process-wide default content type changed by the user (pjrpc.set_default_content_type): replies carry it, the set of
     # accepted request types stays the documented one
     for dct in ('application/json-rpc', VENDOR):
@@ -148,6 +150,18 @@ def gen_cases(ctx):
             K = 8
             for k in range(K):
                 yield dict(part='threads', integration=integration, kinds=list(kinds), budget=ctx.pick(1, 2), shard=(k, K, 1))
+    # applications mounted under a url prefix of an outer application, a flask hook that reads the body first, chunked request bodies,
+    # a main endpoint whose middlewares / handlers must not apply to added endpoints
+    for mi in (0, 1, 13):
+        for bname in ('call', 'mixed', 'notif', 'perr', 'unknown', 'parse', 'nobind'):
+            for sname in ('default', 'first-code-table'):
+                yield dict(status=sname, path='/api', media=mi, body=bname, endpoint='', mount='/mnt')
+                yield dict(status=sname, path='/api', media=mi, body=bname, endpoint='/v2', mount='/mnt')
+                yield dict(status=sname, path='/api', media=mi, body=bname, endpoint='/v2', endpoint_mode='container', mount='/mnt')
+                yield dict(status=sname, path='/api', media=mi, body=bname, endpoint='', hook=True)
+                yield dict(status=sname, path='/api', media=mi, body=bname, endpoint='/v2', hook=True)
+                yield dict(status=sname, path='/api', media=mi, body=bname, endpoint='', chunked=True)
+                yield dict(status=sname, path='/api', media=mi, body=bname, endpoint='/v2', main_mw=True)
     # other request headers (Accept and friends) play no part: the reply is the same as without them
     for accept in ('application/json-rpc', 'text/plain', 'text/html,application/xhtml+xml;q=0.9', '*/*', 'application/json', 'application/xml;q=0.9, */*;q=0.1'):
         for mi in (0, 1, 5):
@@ -170,7 +184,21 @@ def gen_cases(ctx):
                     yield dict(status=sname, path='/api', media=mi, body=bname, endpoint='/v2', endpoint_mode='child')
 
 
+class ChangingStatus:
+    """a status-by-error function whose answer changes from call to call (a table updated at run time): the integration has to ask
+    it for every reply, exactly once, with that reply's codes"""
+    def __init__(self):
+        self.calls = []
+
+    def __call__(self, codes):
+        st = 200 + len(self.calls) % 5
+        self.calls.append((tuple(codes), st))
+        return st
+
+
 def run_seq(case, rec):
+    if case['status'] == 'changing':
+        return run_seq_changing(case, rec)
     sfn = STATUS[case['status']]
     obs = []
     for kind in KINDS:
@@ -266,6 +294,46 @@ def run_threads_case(case, rec):
     return sched
 
 
+def run_seq_changing(case, rec):
+    obs = []
+    for kind in ('aiohttp', 'flask'):
+        log = []
+        fn = ChangingStatus()
+        integ = Integration(kind, case['path'], status_by_error=fn)
+        register(integ.dispatcher, log, kind == 'aiohttp')
+        for step, si in enumerate(case['seq']):
+            ct, bname = SEQ_ALPHABET[si]
+            n0 = len(fn.calls)
+            rep = integ.post(BODIES[bname], ct)
+            rec.transitions += 1
+            new = fn.calls[n0:]
+            c = dict(case, integration=kind, step=step)
+            if rep.raised:
+                rec.violation('C18:%s:exception escaped the integration instead of an HTTP reply (sequence)' % kind, c, expected='a reply', observed=rep.raised)
+                break
+            if not accepted_media(ct) or bname == 'non-utf8':
+                if new:
+                    rec.violation('C18:%s:the status function was consulted for a refused request' % kind, c, expected=[], observed=new)
+                    break
+                continue
+            want_doc, want_codes, _ = twin_answer(kind, BODIES[bname].decode('utf-8'))
+            if want_codes is None:
+                if new or rep.status != 200:
+                    rec.violation('C18:%s:notification not answered with an empty 200' % kind, c, expected='200, status function not consulted', observed=(rep.status, new))
+                    break
+                continue
+            if len(new) != 1 or tuple(new[0][0]) != tuple(want_codes) or rep.status != new[0][1]:
+                rec.violation('C18:%s:the reply status is not what the configured status function returned for THIS reply' % kind, c,
+                              expected='one call with codes %r, its return value as status' % (tuple(want_codes),), observed=dict(calls=new, status=rep.status))
+                break
+            obs.append(rep.status)
+        rec.outcomes['%s:sequence' % kind] += 1
+    rec.states += 1
+    rec.traces += 1
+    rec.nontrivial_n += 1
+    return tuple(obs)
+
+
 def run_case(case, rec):
     if case.get('part') == 'threads':
         return run_threads_case(case, rec)
@@ -298,7 +366,29 @@ def run_one(case, rec):
             continue
         if case.get('endpoint_mode') == 'child' and kind != 'aiohttp':
             continue
-        integ = Integration(kind, case['path'], status_by_error=sfn, endpoint=case.get('endpoint', ''), endpoint_mode=case.get('endpoint_mode', 'plain'), target=case.get('target', 'endpoint'))
+        main_kwargs = None
+        if case.get('main_mw') and not kind.startswith('werkzeug'):
+            # the MAIN endpoint is configured with a middleware that rewrites every result and a handler that rewrites every error;
+            # an endpoint added with add_endpoint() has its own dispatcher and none of that
+            from pjrpc.common import Response as _Resp, UnsetType as _Unset
+            if kind == 'aiohttp':
+                async def tag_mw(request, context, handler):
+                    r = await handler(request, context)
+                    return r if isinstance(r, _Unset) else _Resp(id=r.id, result='TAGGED-BY-MAIN')
+
+                async def tag_eh(request, context, error):
+                    return JsonRpcError(9999, 'rewritten by main')
+            else:
+                def tag_mw(request, context, handler):
+                    r = handler(request, context)
+                    return r if isinstance(r, _Unset) else _Resp(id=r.id, result='TAGGED-BY-MAIN')
+
+                def tag_eh(request, context, error):
+                    return JsonRpcError(9999, 'rewritten by main')
+            main_kwargs = dict(middlewares=[tag_mw], error_handlers={None: [tag_eh]})
+        integ = Integration(kind, case['path'], status_by_error=sfn, endpoint=case.get('endpoint', ''), endpoint_mode=case.get('endpoint_mode', 'plain'), target=case.get('target', 'endpoint'),
+                            mount=case.get('mount') if not kind.startswith('werkzeug') else None, main_kwargs=main_kwargs,
+                            body_reader_hook=bool(case.get('hook')) and kind == 'flask', chunked=bool(case.get('chunked')) and kind != 'aiohttp')
         register(integ.dispatcher, log, kind == 'aiohttp')
         if case.get('endpoint'):
             # the main endpoint serves nothing: a request routed to the wrong dispatcher shows up as 'method not found'
@@ -382,7 +472,7 @@ def replay(doc):
     from mc.core import Recorder, jdump
     rec = Recorder()
     c = doc['case']
-    run_case({k: c[k] for k in ('part', 'seq', 'status', 'path', 'media', 'body', 'endpoint', 'endpoint_mode', 'target', 'dct', 'accept', 'integration', 'kinds', 'budget', 'shard') if k in c}, rec)
+    run_case({k: c[k] for k in ('part', 'seq', 'status', 'path', 'media', 'body', 'endpoint', 'endpoint_mode', 'target', 'dct', 'accept', 'integration', 'kinds', 'budget', 'shard', 'mount', 'hook', 'chunked', 'main_mw') if k in c}, rec)
     for v in rec.violations[:6]:
         print('VIOLATION-REPLAY signature=%s\n  expected=%s\n  observed=%s' % (v['signature'], jdump(v['expected'])[:300], jdump(v['observed'])[:300]))
     print('replayed: %d violation(s)' % len(rec.violations))
